@@ -1054,6 +1054,31 @@ pub fn run_case(c: &Value, seed: u64, idx: u64) -> (String, Option<String>) {
                 }
                 first.unwrap()
             },
+            "decode_scale" => {
+                // a structurally valid input of `len` bytes against one four times as long: linear work means about 4x the time
+                let mk = |nel: usize| -> Vec<u8> {
+                    let mut v = vec![1u8];
+                    v.resize(1 + 32 * nel, 0u8);
+                    v
+                };
+                let small = mk(6 + 2 * u("k"));
+                let big = mk(6 + 2 * 4 * u("k"));
+                let t0 = std::time::Instant::now();
+                let a = RangeProof::<P>::from_bytes(&small).is_ok();
+                let ts = t0.elapsed().as_secs_f64();
+                let t1 = std::time::Instant::now();
+                let b = RangeProof::<P>::from_bytes(&big).is_ok();
+                let tb = t1.elapsed().as_secs_f64();
+                // only judged when the larger decode is slow in absolute terms (noise cannot fake both conditions)
+                let extra = if tb > 3.0 && tb > 9.0 * ts.max(1e-6) {
+                    Some(format!("decoding {} bytes took {:.2} s but {} bytes took {:.2} s: not proportional to the input size", small.len(), ts, big.len(), tb))
+                } else if a != b {
+                    Some("the two structurally identical inputs were not treated alike".to_string())
+                } else {
+                    None
+                };
+                ("nopanic".into(), extra)
+            },
             "decode_raw" => {
                 // uniformly random bytes of the given length: a value or an error, and a value re-encodes to its input
                 let len = u("len");
@@ -1391,5 +1416,107 @@ pub fn ref_prove(stmt: &RangeStatement<P>, vals: &[u64], blinds: &[Vec<Scalar>],
         out.extend_from_slice(r.compress().as_fixed_bytes());
     }
     let _ = <P as MultiscalarMul>::multiscalar_mul(std::iter::empty::<Scalar>(), std::iter::empty::<P>());
+    out
+}
+
+
+// ---------------------------------------------------------------------------------------------------
+// decoder traces (C15, impl -> spec): structured transformations of well-formed encodings
+// ---------------------------------------------------------------------------------------------------
+fn well_formed(t: usize, k: usize, rng: &mut ChaCha12Rng) -> Vec<u8> {
+    let mut v = vec![t as u8];
+    for _ in 0..(t + 5 + 2 * k) {
+        let mut w = [0u8; 64];
+        rng.fill_bytes(&mut w);
+        v.extend_from_slice(&Scalar::from_bytes_mod_order_wide(&w).to_bytes());
+    }
+    v
+}
+
+pub fn codec_trace(seed: u64, count: usize) -> Vec<Value> {
+    let mut rng = ChaCha12Rng::seed_from_u64(seed ^ 0xc0dec);
+    let mut out = vec![];
+    let push = |bytes: Vec<u8>, how: &str, out: &mut Vec<Value>| {
+        let r = RangeProof::<P>::from_bytes(&bytes);
+        let nch = if bytes.is_empty() { 0 } else { (bytes.len() - 1) / 32 };
+        let noncanon: Vec<usize> = (0..nch)
+            .filter(|i| {
+                let mut a = [0u8; 32];
+                a.copy_from_slice(&bytes[1 + 32 * i..33 + 32 * i]);
+                Option::<Scalar>::from(Scalar::from_canonical_bytes(a)).is_none()
+            })
+            .map(|i| i + 1)
+            .collect();
+        let mut framed = (bytes.len() as u64).to_le_bytes().to_vec();
+        framed.extend_from_slice(&bytes);
+        let s1: Result<RangeProof<P>, _> = bincode::deserialize(&framed);
+        let s2: Result<RangeProof<P>, _> = bincode::deserialize_from(std::io::Cursor::new(framed.clone()));
+        let reenc = match &r {
+            Ok(p) => p.to_bytes() == bytes && bincode::serialize(p).ok() == Some(framed.clone()),
+            Err(_) => false,
+        };
+        let n = out.len();
+        out.push(json!({"ev": "Decode", "scen": n, "how": how, "len": bytes.len(), "fb": bytes.first().copied().unwrap_or(0), "noncanon": noncanon,
+            "accepted": r.is_ok(), "reencodes": reenc, "serde_slice": s1.is_ok(), "serde_stream": s2.is_ok()}));
+    };
+    for i in 0..count {
+        let t = 1 + (i % 6);
+        let k = [1usize, 1, 2, 3, 6, 7, 12, 40, 130][i % 9];
+        let base = well_formed(t, k, &mut rng);
+        push(base.clone(), "well-formed", &mut out);
+        // the tag byte moved to the end (rotation left by one byte), and the reverse rotation
+        let mut v = base[1..].to_vec();
+        v.push(base[0]);
+        push(v, "rotate-left", &mut out);
+        let mut v = vec![*base.last().unwrap()];
+        v.extend_from_slice(&base[..base.len() - 1]);
+        push(v, "rotate-right", &mut out);
+        // same, but arranged so that the byte arriving in front is itself a plausible tag
+        let mut b2 = base.clone();
+        b2[1] = 1 + (rng.next_u32() % 6) as u8;
+        let mut v = b2[1..].to_vec();
+        v.push(b2[0]);
+        push(v, "rotate-left-plausible", &mut out);
+        // tag duplicated, tag dropped, elements reversed, whole string reversed
+        let mut v = vec![base[0]];
+        v.extend_from_slice(&base);
+        push(v, "tag-duplicated", &mut out);
+        push(base[1..].to_vec(), "tag-dropped", &mut out);
+        let mut v = vec![base[0]];
+        for c in base[1..].chunks(32).rev() {
+            v.extend_from_slice(c);
+        }
+        push(v, "elements-reversed", &mut out);
+        let mut v = base.clone();
+        v.reverse();
+        push(v, "bytes-reversed", &mut out);
+        // one element dropped / one appended / last pair dropped
+        let cut = 1 + 32 * (rng.next_u32() as usize % (t + 5 + 2 * k));
+        let mut v = base[..cut].to_vec();
+        v.extend_from_slice(&base[cut + 32..]);
+        push(v, "element-dropped", &mut out);
+        let mut v = base.clone();
+        v.extend_from_slice(&base[1..33]);
+        push(v, "element-appended", &mut out);
+        push(base[..base.len() - 64].to_vec(), "pair-dropped", &mut out);
+        // a non-canonical encoding planted at a random chunk (scalar or point slot), of each kind
+        for kind in 0..4u64 {
+            let slot = rng.next_u32() as usize % (t + 5 + 2 * k);
+            let mut v = base.clone();
+            let mut cur = [0u8; 32];
+            cur.copy_from_slice(&v[1 + 32 * slot..33 + 32 * slot]);
+            v[1 + 32 * slot..33 + 32 * slot].copy_from_slice(&noncanonical(kind, &cur));
+            push(v, "noncanonical-planted", &mut out);
+        }
+        // another tag in front of the same body
+        let mut v = base.clone();
+        v[0] = [0u8, 7, 8, 255, ((t % 6) + 1) as u8][i % 5];
+        push(v, "tag-replaced", &mut out);
+        // random bytes of a well-formed length
+        let mut v = vec![0u8; base.len()];
+        rng.fill_bytes(&mut v);
+        v[0] = 1 + (v[0] % 6);
+        push(v, "random-with-plausible-tag", &mut out);
+    }
     out
 }
